@@ -1,5 +1,6 @@
 import LP.Props.C11
 import LP.Props.C11Roots
+import LP.Props.C12Exact
 #print axioms LP.Eval.C11_sign_change_root
 #print axioms LP.Eval.C11_identically_zero
 #print axioms LP.Eval.C10_sign_interval_only
@@ -10,3 +11,4 @@ import LP.Props.C11Roots
 #print axioms LP.Eval.isRootAt_sound
 #print axioms LP.realRoots_isolates
 #print axioms LP.Eval.C11_rootsUnder_exact
+#print axioms LP.Eval.identicallyZero_sound
